@@ -318,6 +318,13 @@ class SimEvent:
         return self._flag
 
 
+class _Token:
+    __slots__ = ('set',)
+
+    def __init__(self):
+        self.set = False
+
+
 class SimCondition:
     """threading.Condition look-alike over a SimLock / SimRLock."""
 
@@ -348,17 +355,16 @@ class SimCondition:
         s = _cur()
         if s is None:
             return True
-        token = [False]
+        token = _Token()
         self._waiters.append(token)
         n = self._release_all()
         try:
-            s.block(lambda: token[0], None if timeout is None else s.clock + max(timeout, 0.0), 'condition')
+            s.block(lambda: token.set, None if timeout is None else s.clock + max(timeout, 0.0), 'condition')
         finally:
-            if token in self._waiters:
-                self._waiters.remove(token)
+            self._waiters = [w for w in self._waiters if w is not token]     # by identity
             for _ in range(n):
                 self._lock.acquire()
-        return token[0]
+        return token.set
 
     def wait_for(self, predicate, timeout=None):
         s = _cur()
@@ -379,7 +385,7 @@ class SimCondition:
         if s is not None:
             s.yield_point()
         for token in self._waiters[:n]:
-            token[0] = True
+            token.set = True
         del self._waiters[:n]
 
     def notify_all(self):
